@@ -5,6 +5,7 @@
 #include <glm/ext/matrix_transform.hpp>
 #include <glm/gtx/transform.hpp>
 #include <glm/gtx/matrix_decompose.hpp>
+#include <glm/gtx/matrix_interpolation.hpp>
 #include <glm/gtc/quaternion.hpp>
 #include <glm/gtx/rotate_vector.hpp>
 using namespace orc;
@@ -75,6 +76,16 @@ template<class T> static void run(Rng& g, int n) {
 		    LD d2 = 0; if constexpr (std::is_same<T, float>::value) { auto Rm = glm::recompose(dS, dQ, dT, dK, dP); for (int c = 0; c < 4; ++c) for (int r = 0; r < 4; ++r) d2 = std::max(d2, fabsl((LD)Rm[c][r] - C.a[c][r] / wn)); }   /* recompose only instantiates for float */
 		    LD td = 16384 * eps * (1 + nrm(C)); if (!(d <= td) || !(d2 <= td)) fail("decompose_perspective" + ty, "bottom row mask " + str(mask), "P*T*R*S p=(" + str((double)pp[0]) + "," + str((double)pp[1]) + "," + str((double)pp[2]) + ")", "components (and recompose) rebuild the matrix normalised by m[3][3]", "max abs diff " + str((double)d) + " / recompose " + str((double)d2) + " perspective out=(" + str((double)dP.x) + "," + str((double)dP.y) + "," + str((double)dP.z) + "," + str((double)dP.w) + ")"); }
 		  else fail("decompose_perspective" + ty, "returned-false", "mask " + str(mask), "true", "false"); }
+		// gtx/matrix_interpolation: axisAngle recovers the rotation of a rigid matrix, axisAngleMatrix rebuilds it, extractMatrixRotation drops the translation, interpolate hits both ends and the half-way rotation
+		{ LD a1 = g.real(0.05, 3.0), a2 = g.real(0.05, 3.0); glm::vec<3, T> n1 = glm::normalize(glm::vec<3, T>((T)g.real(-1, 1), (T)g.real(-1, 1), (T)g.real(-1, 1)) + glm::vec<3, T>((T)0.05)), n2 = glm::normalize(glm::vec<3, T>((T)g.real(-1, 1), (T)g.real(-1, 1), (T)g.real(-1, 1)) + glm::vec<3, T>((T)0.05));
+		  M4 RA = rodr(a1, n1.x, n1.y, n1.z), RB = rodr(a2, n2.x, n2.y, n2.z); glm::mat<4, 4, T> A, B; for (int c = 0; c < 4; ++c) for (int r = 0; r < 4; ++r) { A[c][r] = (T)RA.a[c][r]; B[c][r] = (T)RB.a[c][r]; } A[3] = glm::vec<4, T>((T)g.real(-3, 3), (T)g.real(-3, 3), (T)g.real(-3, 3), (T)1); B[3] = glm::vec<4, T>((T)g.real(-3, 3), (T)g.real(-3, 3), (T)g.real(-3, 3), (T)1);
+		  count("matrix_interpolation" + ty); glm::vec<3, T> ax; T an; glm::axisAngle(A, ax, an); LD sgn = ((LD)ax.x * n1.x + (LD)ax.y * n1.y + (LD)ax.z * n1.z) < 0 ? -1 : 1; LD tq = 2048 * eps / std::max((LD)0.05, sinl(a1));
+		  if (!(fabsl(sgn * an - a1) <= tq && fabsl(sgn * ax.x - n1.x) <= tq && fabsl(sgn * ax.y - n1.y) <= tq && fabsl(sgn * ax.z - n1.z) <= tq)) fail("axisAngle" + ty, "value", "angle " + str((double)a1) + " axis (" + str((double)n1.x) + "," + str((double)n1.y) + "," + str((double)n1.z) + ")", "the axis and angle of the rotation", "angle " + str((double)an) + " axis (" + str((double)ax.x) + "," + str((double)ax.y) + "," + str((double)ax.z) + ")");
+		  auto RM = glm::axisAngleMatrix(n1, (T)a1), XR = glm::extractMatrixRotation(A), I0 = glm::interpolate(A, B, (T)0), I1 = glm::interpolate(A, B, (T)1); LD d1 = 0, d2 = 0, d3 = 0, d4 = 0;
+		  for (int c = 0; c < 4; ++c) for (int r = 0; r < 4; ++r) { LD want = (c < 3 && r < 3) ? RA.a[c][r] : (c == r ? 1 : 0); d1 = std::max(d1, fabsl((LD)RM[c][r] - want)); d2 = std::max(d2, fabsl((LD)XR[c][r] - want)); d3 = std::max(d3, fabsl((LD)I0[c][r] - (LD)A[c][r])); d4 = std::max(d4, fabsl((LD)I1[c][r] - (LD)B[c][r])); }
+		  if (!(d1 <= 64 * eps)) fail("axisAngleMatrix" + ty, "value", "angle " + str((double)a1), "Rodrigues matrix", "max abs diff " + str((double)d1)); if (!(d2 <= 64 * eps)) fail("extractMatrixRotation" + ty, "value", ms(A), "rotation block, no translation", "max abs diff " + str((double)d2));
+		  LD trr = 0; for (int c = 0; c < 3; ++c) for (int r = 0; r < 3; ++r) trr += RA.a[c][r] * RB.a[c][r]; LD cr = (trr - 1) / 2, sr = sqrtl(std::max((LD)0, 1 - cr * cr));   // relative rotation A -> B: its axis is ill-conditioned next to 0 and pi
+		  if (sr > 0.05L) if (!(d3 <= 4096 * eps) || !(d4 <= 4096 * eps * 4 / sr)) fail("interpolate" + ty, "end points", ms(A), "interpolate(A, B, 0) = A and interpolate(A, B, 1) = B", "max abs diff " + str((double)d3) + " / " + str((double)d4)); }
 		if (it < 2) sample("C09 " + ms(M));
 	}
 }
